@@ -9,6 +9,9 @@
       executes (load of `closed`, RWMutex acquisitions of the per-view lock and of the map lock, the
       atomic effect under the map lock, releases, flushkv's trailing Flush), and `step` interleaves any
       number of threads instruction by instruction, recording an `orec` for every effect.
+      The consumer of an Iterate/IterateKeys is user code: `CIterRe` lets it call back into the store
+      (`cb`: the API calls it makes inside its j-th invocation). The callbacks run after the snapshot was
+      copied and the map lock released, with NO store lock held (`ICallbacks`/`IInvoke`/`IReturn`).
    No proofs in this file. *)
 From Coq Require Import NArith List Bool Arith Permutation.
 Import ListNotations.
@@ -227,7 +230,11 @@ Inductive call :=
 | CFlush (w : view)
 | CWithRealm (w : view)             (* WithRealm / WithExtendedRealm / Batched: only the closed test is observable *)
 | CClose (w : view)
-| CCommit (w : view) (ws : list (bytes * option bytes)).   (* batch.Set/Delete... then Commit *)
+| CCommit (w : view) (ws : list (bytes * option bytes))    (* batch.Set/Delete... then Commit *)
+(* Iterate / IterateKeys whose consumer re-enters the store: inside its j-th invocation (one invocation per
+   reported entry, at most `lim`) it makes the calls `nth j cb []`, one after the other, each returning
+   before the next starts; the calls may be anything, through any view, re-entrant iterations included *)
+| CIterRe (w : view) (p : bytes) (fwd keys : bool) (lim : nat) (cb : list (list call)).
 
 (* batchedMutations: Set removes the key from the delete set and vice versa; Commit applies all sets, then all deletes *)
 Fixpoint batch_last (k : bytes) (ws : list (bytes * option bytes)) : option (option bytes) :=
@@ -262,7 +269,12 @@ Inductive instr :=
 | IRel (l : lockid)
 | IEff (o : sop)                (* body of a syncedKVMap method, under its lock *)
 | INop                          (* Flush: closed.Load() as an operation of its own *)
-| IClose.                       (* closed.Swap(true) *)
+| IClose                        (* closed.Swap(true) *)
+(* the loop of syncedKVMap.iterate/iterateKeys over the copied entries: one consumer invocation per entry
+   reported (the result accumulated so far); the goroutine holds no lock of the store here *)
+| ICallbacks (cb : list (list call))
+| IInvoke (c : call)            (* the consumer calls the store: a nested API call with its own interval *)
+| IReturn (ci iv : nat) (r : ret).   (* the nested call returns; the outer call (id, invocation stamp, result so far) resumes *)
 
 Definition is_write (o : sop) : bool :=
   match o with OSet _ _ | ODel _ | ODelPrefix _ => true | _ => false end.
@@ -288,6 +300,10 @@ Definition compile (c : call) : list instr :=
       (* Iterate takes no view lock; the snapshot is copied under the map's read lock *)
       let o := OIter (realm w ++ p) (length (realm w)) fwd keys lim in
       [ICheck [o]; IAcq LMap false; IEff o; IRel LMap]
+  | CIterRe w p fwd keys lim cb =>
+      (* the same; then the consumer is called for every copied entry, after s.RUnlock() of the map *)
+      let o := OIter (realm w ++ p) (length (realm w)) fwd keys lim in
+      [ICheck [o]; IAcq LMap false; IEff o; IRel LMap; ICallbacks cb]
   | CFlush w => [INop]
   | CWithRealm w => [INop]
   | CClose w => [IClose]
@@ -298,16 +314,40 @@ Definition compile (c : call) : list instr :=
         ++ [IRel (LView (vid w))] ++ flush_tail w
   end.
 
+(* NOT the code: the variant that keeps the view's read lock (s.RLock(); defer s.RUnlock()) around the
+   iteration, so that the consumer runs while the view lock is read-held. Only used for the refutation
+   C05_refuted_rlock_across_callbacks (deadlock with a re-entrant consumer and a pending writer). *)
+Definition compile_held (c : call) : list instr :=
+  match c with
+  | CIterRe w p fwd keys lim cb =>
+      let o := OIter (realm w ++ p) (length (realm w)) fwd keys lim in
+      [ICheck [o]; IAcq (LView (vid w)) false; IAcq LMap false; IEff o; IRel LMap; ICallbacks cb; IRel (LView (vid w))]
+  | _ => compile c
+  end.
+
+(* the calls a consumer makes, given what the iteration reports: cb[j] for every reported entry j *)
+Definition cb_calls (r : ret) (cb : list (list call)) : list call :=
+  match r with RList l => concat (firstn (length l) cb) | _ => [] end.
+
+(* a failed `closed` test ends the call in flight: control goes to the return of that call *)
+Fixpoint skip_ret (p : list instr) : list instr :=
+  match p with
+  | [] => []
+  | IReturn _ _ _ :: _ => p
+  | _ :: r => skip_ret r
+  end.
+
 (* ------------------------------------------------------------------ threads and interleaving *)
 Record thread := mkT {
   script : list call;            (* calls still to be made *)
   cur : option (list instr);     (* remaining program of the call in flight *)
-  cidx : nat;                    (* number of calls invoked so far *)
+  cidx : nat;                    (* id of the call in flight (of the innermost one when a consumer re-entered) *)
   cinv : nat;                    (* invocation stamp of the call in flight *)
   cres : ret;                    (* result accumulated by the call in flight *)
   hv : option (nat * bool);      (* view lock held: (vid, write?) *)
   hm : option bool;              (* map lock held: write? *)
-  ww : bool                      (* announced as waiting writer on the lock of the next IAcq *)
+  ww : bool;                     (* announced as waiting writer on the lock of the next IAcq *)
+  nid : nat                      (* number of calls invoked so far (nested ones included) = next call id *)
 }.
 
 Record crec := mkC { c_call : nat * nat; c_inv : nat; c_res : nat; c_ret : ret }.
@@ -321,7 +361,7 @@ Record state := mkSt {
   rets : list crec               (* returned calls *)
 }.
 
-Definition new_thread (sc : list call) : thread := mkT sc None 0 0 ROk None None false.
+Definition new_thread (sc : list call) : thread := mkT sc None 0 0 ROk None None false 0.
 Definition init (scripts : list (list call)) : state := mkSt [] false (map new_thread scripts) 0 [] [].
 
 Definition lock_eqb (a b : lockid) : bool :=
@@ -346,16 +386,16 @@ Definition can_rlock (ths : list thread) (l : lockid) : bool :=
 
 Definition set_hold (th : thread) (l : lockid) (x : option bool) : thread :=
   match l with
-  | LMap => mkT (script th) (cur th) (cidx th) (cinv th) (cres th) (hv th) x (ww th)
+  | LMap => mkT (script th) (cur th) (cidx th) (cinv th) (cres th) (hv th) x (ww th) (nid th)
   | LView v => mkT (script th) (cur th) (cidx th) (cinv th) (cres th)
-                   (match x with Some w => Some (v, w) | None => None end) (hm th) (ww th)
+                   (match x with Some w => Some (v, w) | None => None end) (hm th) (ww th) (nid th)
   end.
 Definition set_cur (th : thread) (p : option (list instr)) : thread :=
-  mkT (script th) p (cidx th) (cinv th) (cres th) (hv th) (hm th) (ww th).
+  mkT (script th) p (cidx th) (cinv th) (cres th) (hv th) (hm th) (ww th) (nid th).
 Definition set_res (th : thread) (r : ret) : thread :=
-  mkT (script th) (cur th) (cidx th) (cinv th) r (hv th) (hm th) (ww th).
+  mkT (script th) (cur th) (cidx th) (cinv th) r (hv th) (hm th) (ww th) (nid th).
 Definition set_ww (th : thread) (b : bool) : thread :=
-  mkT (script th) (cur th) (cidx th) (cinv th) (cres th) (hv th) (hm th) b.
+  mkT (script th) (cur th) (cidx th) (cinv th) (cres th) (hv th) (hm th) b (nid th).
 
 Fixpoint upd {A} (l : list A) (i : nat) (x : A) : list A :=
   match l, i with
@@ -373,8 +413,9 @@ Definition cid_eqb (a b : nat * nat) : bool := Nat.eqb (fst a) (fst b) && Nat.eq
 Definition respond (cid : nat * nat) (now : nat) (l : list orec) : list orec :=
   map (fun r => if cid_eqb (o_call r) cid then mkO (o_call r) (o_inv r) (Some now) (o_op r) (o_ret r) else r) l.
 
-(* One step of thread t. None = not enabled (finished, or blocked on a lock). *)
-Definition step (s : state) (t : nat) : option state :=
+(* One step of thread t. None = not enabled (finished, or blocked on a lock).
+   `comp` = the program of every call (compile = the code; compile_held only for the refutation). *)
+Definition step_with (comp : call -> list instr) (s : state) (t : nat) : option state :=
   match nth_error (threads s) t with
   | None => None
   | Some th =>
@@ -385,11 +426,11 @@ Definition step (s : state) (t : nat) : option state :=
         match script th with
         | [] => None
         | c :: sc =>   (* invocation *)
-            Some (with_threads s (put (mkT sc (Some (compile c)) (cidx th) (clock s) ROk (hv th) (hm th) false)))
+            Some (with_threads s (put (mkT sc (Some (comp c)) (nid th) (clock s) ROk (hv th) (hm th) false (S (nid th)))))
         end
     | Some [] =>       (* response *)
         Some (mkSt (mem s) (closed s)
-                   (put (mkT (script th) None (S (cidx th)) (cinv th) (cres th) (hv th) (hm th) false))
+                   (put (mkT (script th) None (cidx th) (cinv th) (cres th) (hv th) (hm th) false (nid th)))
                    (S (clock s)) (respond cid (clock s) (recs s))
                    (rets s ++ [mkC cid (cinv th) (clock s) (cres th)]))
     | Some (i :: p) =>
@@ -397,7 +438,7 @@ Definition step (s : state) (t : nat) : option state :=
         match i with
         | ICheck g =>
             if closed s
-            then Some (mkSt (mem s) (closed s) (put (set_res (set_cur th (Some [])) RClosed)) (S (clock s))
+            then Some (mkSt (mem s) (closed s) (put (set_res (set_cur th (Some (skip_ret p))) RClosed)) (S (clock s))
                             (recs s ++ map (fun o => emit o RClosed) g) (rets s))
             else Some (with_threads s (put (set_cur th (Some p))))
         | INop =>
@@ -422,21 +463,50 @@ Definition step (s : state) (t : nat) : option state :=
             if can_rlock (threads s) l
             then Some (with_threads s (put (set_cur (set_hold th l (Some false)) (Some p))))
             else None
+        | ICallbacks cb =>   (* the consumer's calls for the entries reported, in order *)
+            Some (with_threads s (put (set_cur th (Some (map IInvoke (cb_calls (cres th) cb) ++ p)))))
+        | IInvoke c =>       (* invocation of a nested call: fresh id, own invocation stamp *)
+            Some (with_threads s (put (mkT (script th) (Some (comp c ++ IReturn (cidx th) (cinv th) (cres th) :: p))
+                                           (nid th) (clock s) ROk (hv th) (hm th) false (S (nid th)))))
+        | IReturn ci iv r => (* response of the nested call; the outer call resumes *)
+            Some (mkSt (mem s) (closed s)
+                       (put (mkT (script th) (Some p) ci iv r (hv th) (hm th) false (nid th)))
+                       (S (clock s)) (respond cid (clock s) (recs s))
+                       (rets s ++ [mkC cid (cinv th) (clock s) (cres th)]))
         end
     end
   end.
+
+Definition step : state -> nat -> option state := step_with compile.
 
 Definition step' (s : state) (t : nat) : state := match step s t with Some s' => s' | None => s end.
 
 (* a schedule is any list of thread numbers; entries that are not enabled are skipped *)
 Definition run (sch : list nat) (s : state) : state := fold_left step' sch s.
 
+(* the same for the variant programs *)
+Definition run_with (comp : call -> list instr) (sch : list nat) (s : state) : state :=
+  fold_left (fun s t => match step_with comp s t with Some s' => s' | None => s end) sch s.
+
 Definition finished (th : thread) : bool :=
   match cur th, script th with None, [] => true | _, _ => false end.
 
 (* ------------------------------------------------------------------ lockstep (sequential) use of the same model *)
 (* run thread 0 alone until its script is exhausted: the results of its calls, in order *)
+(* an upper bound of the number of steps of a call, nested calls included *)
+Fixpoint call_size (c : call) : nat :=
+  3 + length (compile c) +
+  match c with
+  | CIterRe _ _ _ _ _ cb =>
+      (fix outer (l : list (list call)) : nat :=
+         match l with
+         | [] => 0
+         | cs :: r => (fix inner (l2 : list call) : nat :=
+                         match l2 with [] => 0 | c' :: r2 => call_size c' + inner r2 end) cs + outer r
+         end) cb
+  | _ => 0
+  end.
 Definition seq_fuel (sc : list call) : nat :=
-  fold_right (fun c n => n + 2 + length (compile c)) 1 sc.
+  fold_right (fun c n => n + call_size c) 1 sc.
 Definition run_seq (sc : list call) : state := run (repeat 0 (seq_fuel sc)) (init [sc]).
 Definition seq_results (sc : list call) : list ret := map c_ret (rets (run_seq sc)).
